@@ -6,6 +6,7 @@ import re
 
 VERIF = os.path.dirname(os.path.dirname(os.path.abspath(__file__)))
 FIRST_MISSED = {
+    "C20g": "missed at first; caught after constant layers included +inf / -inf (degenerate scale with a NaN span)",
     "C13a": "missed at first; caught after the batch models learned to collect several times per step",
     "C17a": "missed at first; caught after Computed functions could return None",
     "C20a": "missed at first; caught after sizes/z-orders were generated in quarter units",
